@@ -13,6 +13,8 @@
 //         <file> <kind>  CRASH sig=<n>|exit=<n>
 //   deptool startup <user> <shared> <staging> <check|full>
 //       RimeStartMaintenance(full_check) + join through the public API (the frontends' start-up path)
+//   deptool resident <user> <shared> <staging>
+//       one process that deploys (full check, through the API) each time it reads "deploy" on stdin
 //   deptool info <builddir>
 //       schema_list / dictionary / prism / packs / dependencies as the compiled configs state them
 //   deptool dump <builddir> [<texts file: one text per line, extra reverse lookups>]
@@ -340,7 +342,39 @@ static int startup(const char* user, const char* shared, const char* staging, bo
   return 0;
 }
 
+// ---------------------------------------------------------------- resident
+// a frontend that stays alive between deployments (round 3): one process, the library set up once; every line
+// "deploy" on stdin runs initialize + RimeStartMaintenance(full_check = True) + join + finalize and answers
+// "deployed started=<0|1>".  Whatever the library remembers inside the process between two deployments
+// (function-local statics, component pools that survive finalize) is thereby part of the deployment history.
+static int resident(const char* user, const char* shared, const char* staging) {
+  RimeApi* api = rime_get_api();
+  RIME_STRUCT(RimeTraits, traits);
+  traits.shared_data_dir = shared;
+  traits.user_data_dir = user;
+  traits.staging_dir = staging;
+  traits.distribution_name = "verif";
+  traits.distribution_code_name = "verif";
+  traits.distribution_version = "0";
+  traits.app_name = "rime.verif";
+  traits.log_dir = "";
+  traits.min_log_level = 3;
+  api->setup(&traits);
+  string line;
+  while (std::getline(std::cin, line)) {
+    if (line != "deploy") continue;
+    api->initialize(&traits);
+    Bool started = api->start_maintenance(True);
+    if (started) api->join_maintenance_thread();
+    api->finalize();
+    printf("deployed started=%d\n", started ? 1 : 0);
+    fflush(stdout);
+  }
+  return 0;
+}
+
 int main(int argc, char** argv) {
+  if (argc == 5 && !strcmp(argv[1], "resident")) return resident(argv[2], argv[3], argv[4]);
   if (argc == 6 && !strcmp(argv[1], "startup")) return startup(argv[2], argv[3], argv[4], !strcmp(argv[5], "full"));
   if (argc == 3 && !strcmp(argv[1], "info")) return info(argv[2]);
   if (argc == 3 && !strcmp(argv[1], "probe-all")) return probe_all(argv[2]);
